@@ -76,8 +76,16 @@ def cells(tier, seed):
                 out.append({'dim': 2, 'wave': w, 'mode': mode, 'J': rnd.choice([1, 2, 3, 4]),
                             'shape': [rnd.choice(BIG), rnd.choice(BIG + [16, 17])], 'N': 1, 'C': 2,
                             'noimp': True})
+    for c in out:
+        if c['mode'] == 'periodization' and rnd.random() < 0.2:
+            c['spelling'] = 'per'
     rnd.shuffle(out)
     return out
+
+
+def lib_mode(cell):
+    # 'per' is the library's (and pywt's) short spelling of 'periodization'
+    return 'per' if (cell['mode'] == 'per' or cell.get('spelling') == 'per') else cell['mode']
 
 
 def build(cell):
@@ -85,8 +93,8 @@ def build(cell):
     import pytorch_wavelets as pw
     with util.default_dtype(torch.float64):
         if cell['dim'] == 1:
-            return pw.DWT1DForward(J=cell['J'], wave=cell['wave'], mode=cell['mode'])
-        return pw.DWTForward(J=cell['J'], wave=cell['wave'], mode=cell['mode'])
+            return pw.DWT1DForward(J=cell['J'], wave=cell['wave'], mode=lib_mode(cell))
+        return pw.DWTForward(J=cell['J'], wave=cell['wave'], mode=lib_mode(cell))
 
 
 def reference(cell, x):
